@@ -255,6 +255,12 @@ func (s *Synchronizer) isReverting(
 		return 0, false
 	}
 
+	// remoteHeight-1 would wrap around for a remote chain that only has block 0:
+	// every local block above 0 is then known to be orphaned, block 0 is compared by hash.
+	if remoteHeight == 0 {
+		return 0, true
+	}
+
 	return remoteHeight - 1, true
 }
 
